@@ -71,15 +71,19 @@ func (f *StarvingMutex) RLock() {
 // RUnlock undoes a single RLock call;
 // it does not affect other simultaneous readers.
 // It is a run-time error if mutex is not locked for reading
-// on entry to RUnlock.
+// on entry to RUnlock (the panic leaves the mutex as it was).
 func (f *StarvingMutex) RUnlock() {
 	f.mutex.Lock()
 
 	if f.readersActive == 0 {
+		f.mutex.Unlock()
+
 		panic("RUnlock called without RLock")
 	}
 
 	if f.writerActive {
+		f.mutex.Unlock()
+
 		panic("RUnlock called while writer active")
 	}
 
@@ -122,7 +126,7 @@ func (f *StarvingMutex) Lock() {
 }
 
 // Unlock unlocks starving mutex for writing. It is a run-time error if mutex is
-// not locked for writing on entry to Unlock.
+// not locked for writing on entry to Unlock (the panic leaves the mutex as it was).
 //
 // As with Mutexes, a locked StarvingMutex is not associated with a particular
 // goroutine. One goroutine may RLock (Lock) a StarvingMutex and then
@@ -131,10 +135,14 @@ func (f *StarvingMutex) Unlock() {
 	f.mutex.Lock()
 
 	if f.readersActive > 0 {
+		f.mutex.Unlock()
+
 		panic("Unlock called while readers active")
 	}
 
 	if !f.writerActive {
+		f.mutex.Unlock()
+
 		panic("Unlock called without Lock")
 	}
 
